@@ -552,4 +552,305 @@ theorem isArgmin_unique (ds : List Int) (k k' : Nat) (m m' : Int) (h : IsArgmin 
   · exact h
   · have := fs k' m h g'; omega
 
+theorem snapIdx_spec (data : List P3) (p : P3) (k : Nat) (m : Int) (h : snapIdx data p = some (k, m)) :
+    ∃ q, data[k]? = some q ∧ d2 p q = m ∧ (∀ r ∈ data, m ≤ d2 p r)
+      ∧ ∀ j r, j < k → data[j]? = some r → m < d2 p r := by
+  obtain ⟨hget, hmin, hfirst⟩ := argmin_spec _ _ _ h
+  rw [List.getElem?_map] at hget
+  cases hq : data[k]? with
+  | none => rw [hq] at hget; cases hget
+  | some q =>
+    rw [hq] at hget
+    simp only [Option.map_some, Option.some.injEq] at hget
+    refine ⟨q, rfl, hget, ?_, ?_⟩
+    · intro r hr; exact hmin _ (List.mem_map_of_mem hr)
+    · intro j r hj hr
+      apply hfirst j _ hj
+      rw [List.getElem?_map, hr]; rfl
+
+theorem snapIdx_isSome (data : List P3) (p : P3) (h : data ≠ []) : ∃ k m, snapIdx data p = some (k, m) := by
+  apply argmin_isSome
+  intro e; apply h
+  cases data with
+  | nil => rfl
+  | cons a t => simp at e
+
+/-- a strictly nearest row is what every correct nearest-neighbour search returns -/
+theorem snapIdx_of_strict (data : List P3) (p : P3) (j : Nat) (q : P3) (hq : data[j]? = some q)
+    (hs : ∀ i r, i ≠ j → data[i]? = some r → d2 p q < d2 p r) : snapIdx data p = some (j, d2 p q) := by
+  have hne : data ≠ [] := by intro e; rw [e] at hq; cases hq
+  obtain ⟨k, m, hk⟩ := snapIdx_isSome data p hne
+  obtain ⟨q', hq', hd, hmin, _⟩ := snapIdx_spec data p k m hk
+  by_cases hkj : k = j
+  · subst hkj
+    rw [hq] at hq'; injection hq' with e; subst e
+    rw [hk, hd]
+  · have h1 := hs k q' hkj hq'
+    have h2 := hmin q (List.mem_of_getElem? hq)
+    omega
+
+theorem attach_lt (data : List P3) (c : PConn) (h : data ≠ []) : attach data c < data.length := by
+  obtain ⟨k, m, hk⟩ := snapIdx_isSome data c.pos h
+  obtain ⟨q, hq, _⟩ := snapIdx_spec data c.pos k m hk
+  have : k < data.length := by
+    rcases Nat.lt_or_ge k data.length with h | h
+    · exact h
+    · rw [List.getElem?_eq_none h] at hq; cases hq
+  simp [attach, hk, this]
+
+/-! ## 7. point clouds and meshes -/
+
+/-- the predicate `g` evaluated on row `i` (`false` outside the table) -/
+def inAt (l : List P3) (g : P3 → Bool) (i : Nat) : Bool := (l[i]?.map g).getD false
+
+theorem masked_range' (l : List P3) (g : P3 → Bool) (s : Nat) :
+    masked (List.range' s l.length) (l.map g)
+      = (List.range' s l.length).filter fun i => inAt l g (i - s) := by
+  induction l generalizing s with
+  | nil => rfl
+  | cons a t ih =>
+    have ih' := ih (s + 1)
+    unfold masked at ih' ⊢
+    simp only [List.length_cons, List.range'_succ, List.map_cons, List.zip_cons_cons, List.filterMap_cons,
+      List.filter_cons]
+    have h0 : inAt (a :: t) g (s - s) = g a := by simp [inAt]
+    have htail : (List.range' (s + 1) t.length).filter (fun i => inAt (a :: t) g (i - s))
+        = (List.range' (s + 1) t.length).filter (fun i => inAt t g (i - (s + 1))) := by
+      apply List.filter_congr
+      intro i hi
+      rw [List.mem_range'_1] at hi
+      have : i - s = (i - (s + 1)) + 1 := by omega
+      rw [this]; simp [inAt]
+    rw [h0, htail, ← ih']
+    cases g a <;> rfl
+
+theorem maskedIdx_map (l : List P3) (g : P3 → Bool) :
+    maskedIdx (l.map g) = (List.range l.length).filter (inAt l g) := by
+  unfold maskedIdx
+  rw [List.length_map, List.range_eq_range', masked_range' l g 0]
+  rfl
+
+theorem inAt_of_all (l : List P3) (g : P3 → Bool) (h : l.all g = true) (i : Nat) (hi : i < l.length) :
+    inAt l g i = true := by
+  have := List.all_eq_true.mp h (l[i]) (List.getElem_mem hi)
+  simp [inAt, List.getElem?_eq_getElem hi, this]
+
+theorem inAt_not (l : List P3) (g : P3 → Bool) (i : Nat) (hi : i < l.length) :
+    inAt l (fun q => !g q) i = !inAt l g i := by
+  simp [inAt, List.getElem?_eq_getElem hi]
+
+/-- indices the volume test selects, both branches of `if not all(in_v)` -/
+theorem selected_eq (S : Solid) (mode : Mode) (pts : List P3) :
+    (if (keepMask mode (inVolumePoints S pts)).all id then List.range pts.length
+      else maskedIdx (keepMask mode (inVolumePoints S pts)))
+      = (List.range pts.length).filter (inAt pts (keepPred S mode)) := by
+  rw [keepMask_points, all_id_map]
+  split
+  · rename_i hall
+    symm
+    apply List.filter_eq_self.mpr
+    intro i hi
+    exact inAt_of_all pts _ hall i (List.mem_range.mp hi)
+  · exact maskedIdx_map pts _
+
+theorem inVolumeDots_kept (S : Solid) (mode : Mode) (d : Dots) :
+    (inVolumeDots S mode d).kept = (List.range d.pts.length).filter (inAt d.pts (keepPred S mode)) := by
+  rw [← selected_eq]
+  unfold inVolumeDots
+  split <;> rfl
+
+theorem inVolumeMesh_subset (S : Solid) (mode : Mode) (m : Mesh) :
+    (inVolumeMesh S mode m).subset = (List.range m.verts.length).filter (inAt m.verts (keepPred S mode)) := by
+  rw [← selected_eq]
+  unfold inVolumeMesh
+  split <;> rfl
+
+/-- kept connector ids of a point cloud -/
+theorem inVolumeDots_conns (S : Solid) (mode : Mode) (d : Dots) (hne : d.pts ≠ []) :
+    (inVolumeDots S mode d).conns.map (·.1)
+      = (d.conns.filter fun c => (inVolumeDots S mode d).kept.contains (attach d.pts c)).map (·.cid) := by
+  unfold inVolumeDots
+  split
+  · simp only [allDots, List.map_map]
+    have : (d.conns.filter fun c => (List.range d.pts.length).contains (attach d.pts c)) = d.conns := by
+      apply List.filter_eq_self.mpr
+      intro c _
+      rw [List.contains_iff_mem, List.mem_range]
+      exact attach_lt d.pts c hne
+    rw [this]; rfl
+  · simp only [subsetDots, List.map_map]; rfl
+
+theorem inVolumeMesh_conns (S : Solid) (mode : Mode) (m : Mesh) (hne : m.verts ≠ []) :
+    (inVolumeMesh S mode m).conns.map (·.1)
+      = (m.conns.filter fun c => (inVolumeMesh S mode m).subset.contains (attach m.verts c)).map (·.cid) := by
+  unfold inVolumeMesh
+  split
+  · simp only [allMesh, List.map_map]
+    have : (m.conns.filter fun c => (List.range m.verts.length).contains (attach m.verts c)) = m.conns := by
+      apply List.filter_eq_self.mpr
+      intro c _
+      rw [List.contains_iff_mem, List.mem_range]
+      exact attach_lt m.verts c hne
+    rw [this]; rfl
+  · simp only [subsetMesh, List.map_map]; rfl
+
+theorem getElem?_idxOf_of_mem (l : List Nat) (a : Nat) (h : a ∈ l) : l[l.idxOf a]? = some a := by
+  have hl := List.idxOf_lt_length_of_mem h
+  rw [List.getElem?_eq_getElem hl, List.getElem_idxOf hl]
+
+/-- the re-indexed `point` column addresses the same point in the pruned cloud -/
+theorem inVolumeDots_reindex (S : Solid) (mode : Mode) (d : Dots) (hne : d.pts ≠ []) (cj : Int × Nat)
+    (h : cj ∈ (inVolumeDots S mode d).conns) :
+    ∃ c ∈ d.conns, c.cid = cj.1 ∧ (inVolumeDots S mode d).kept[cj.2]? = some (attach d.pts c) := by
+  unfold inVolumeDots at h ⊢
+  split at h
+  · rename_i hall
+    simp only [hall, if_true]
+    obtain ⟨c, hc, rfl⟩ := List.mem_map.mp h
+    exact ⟨c, hc, rfl, List.getElem?_range (attach_lt d.pts c hne)⟩
+  · rename_i hall
+    simp only [hall]
+    obtain ⟨c, hc, rfl⟩ := List.mem_map.mp h
+    rw [List.mem_filter, List.contains_iff_mem] at hc
+    exact ⟨c, hc.1, rfl, getElem?_idxOf_of_mem _ _ hc.2⟩
+
+/-- complementary filters of the row indices -/
+theorem selected_partition (S : Solid) (pts : List P3) :
+    ((List.range pts.length).filter (inAt pts (keepPred S .IN))
+      ++ (List.range pts.length).filter (inAt pts (keepPred S .OUT))).Perm (List.range pts.length) := by
+  have : (List.range pts.length).filter (inAt pts (keepPred S .OUT))
+      = (List.range pts.length).filter (fun i => !inAt pts (keepPred S .IN) i) := by
+    apply List.filter_congr
+    intro i hi
+    exact inAt_not pts (keepPred S .IN) i (List.mem_range.mp hi)
+  rw [this]
+  exact List.filter_append_perm _ _
+
+theorem selected_disjoint (S : Solid) (pts : List P3) (i : Nat)
+    (h : i ∈ (List.range pts.length).filter (inAt pts (keepPred S .IN))) :
+    i ∉ (List.range pts.length).filter (inAt pts (keepPred S .OUT)) := by
+  intro h'
+  rw [List.mem_filter] at h h'
+  have := inAt_not pts (keepPred S .IN) i (List.mem_range.mp h.1)
+  have e : inAt pts (keepPred S .OUT) i = !inAt pts (keepPred S .IN) i := this
+  rw [e, h.2] at h'
+  exact absurd h'.2 (by simp)
+
+/-! ### meshes: faces decide which vertices survive -/
+
+/-- all faces address existing vertices -/
+def FacesValid (m : Mesh) : Prop := ∀ f ∈ m.faces, f.a < m.verts.length ∧ f.b < m.verts.length ∧ f.c < m.verts.length
+
+/-- every vertex belongs to at least one face (what `trimesh` processing leaves) -/
+def Referenced (m : Mesh) : Prop := ∀ i, i < m.verts.length → ∃ f ∈ m.faces, f.has i = true
+
+/-- no face has vertices on both sides of the surface -/
+def NoStraddle (S : Solid) (m : Mesh) : Prop := ∀ f ∈ m.faces, f.straddles S m.verts = false
+
+theorem Face.has_iff (f : Face) (i : Nat) : f.has i = true ↔ f.a = i ∨ f.b = i ∨ f.c = i := by
+  simp [Face.has, or_assoc]
+
+theorem Face.allIn_iff (f : Face) (s : List Nat) : f.allIn s = true ↔ f.a ∈ s ∧ f.b ∈ s ∧ f.c ∈ s := by
+  simp [Face.allIn, and_assoc]
+
+theorem submeshVerts_sub (m : Mesh) (subset : List Nat) (i : Nat) (h : i ∈ submeshVerts m subset) : i ∈ subset := by
+  unfold submeshVerts at h
+  rw [List.mem_filter, List.any_eq_true] at h
+  obtain ⟨_, f, _, hf⟩ := h
+  rw [Bool.and_eq_true, Face.allIn_iff, Face.has_iff] at hf
+  obtain ⟨⟨ha, hb, hc⟩, hi⟩ := hf
+  rcases hi with rfl | rfl | rfl <;> assumption
+
+theorem mem_selected (pts : List P3) (g : P3 → Bool) (i : Nat) :
+    i ∈ (List.range pts.length).filter (inAt pts g) ↔ ∃ q, pts[i]? = some q ∧ g q = true := by
+  rw [List.mem_filter, List.mem_range]
+  constructor
+  · rintro ⟨hi, hg⟩
+    refine ⟨pts[i], List.getElem?_eq_getElem hi, ?_⟩
+    simpa [inAt, List.getElem?_eq_getElem hi] using hg
+  · rintro ⟨q, hq, hg⟩
+    have hi : i < pts.length := by
+      rcases Nat.lt_or_ge i pts.length with h | h
+      · exact h
+      · rw [List.getElem?_eq_none h] at hq; cases hq
+    refine ⟨hi, ?_⟩
+    simp [inAt, hq, hg]
+
+theorem keepPred_congr (S : Solid) (mode : Mode) (p q : P3) (h : mem S p = mem S q) :
+    keepPred S mode p = keepPred S mode q := by
+  cases mode <;> simp [keepPred, h]
+
+/-- without straddling faces, on a mesh all of whose vertices carry a face, `submesh` keeps exactly the selected
+vertices -/
+theorem submeshVerts_eq_of_noStraddle (S : Solid) (mode : Mode) (m : Mesh) (hv : FacesValid m)
+    (hr : Referenced m) (hs : NoStraddle S m) :
+    submeshVerts m ((List.range m.verts.length).filter (inAt m.verts (keepPred S mode)))
+      = (List.range m.verts.length).filter (inAt m.verts (keepPred S mode)) := by
+  unfold submeshVerts
+  apply List.filter_congr
+  intro i hi
+  have hi' := List.mem_range.mp hi
+  cases hg : inAt m.verts (keepPred S mode) i
+  · apply Bool.eq_false_iff.mpr
+    intro hany
+    rw [List.any_eq_true] at hany
+    obtain ⟨f, _, hf⟩ := hany
+    rw [Bool.and_eq_true, Face.allIn_iff, Face.has_iff] at hf
+    obtain ⟨⟨ha, hb, hc⟩, hi⟩ := hf
+    have : i ∈ (List.range m.verts.length).filter (inAt m.verts (keepPred S mode)) := by
+      rcases hi with rfl | rfl | rfl <;> assumption
+    rw [List.mem_filter, hg] at this
+    exact absurd this.2 (by simp)
+  · rw [List.any_eq_true]
+    obtain ⟨f, hf, hfi⟩ := hr i hi'
+    refine ⟨f, hf, ?_⟩
+    rw [Bool.and_eq_true]
+    refine ⟨?_, hfi⟩
+    obtain ⟨va, vb, vc⟩ := hv f hf
+    have hst := hs f hf
+    simp only [Face.straddles, List.getD_eq_getElem?_getD, List.getElem?_eq_getElem va,
+      List.getElem?_eq_getElem vb, List.getElem?_eq_getElem vc, Option.getD_some,
+      Bool.not_eq_false', Bool.and_eq_true, beq_iff_eq] at hst
+    obtain ⟨eab, ebc⟩ := hst
+    -- keepPred at i
+    have gi : keepPred S mode m.verts[i] = true := by
+      simpa [inAt, List.getElem?_eq_getElem hi'] using hg
+    have sel : ∀ k (hk : k < m.verts.length), mem S m.verts[k] = mem S m.verts[i] →
+        k ∈ (List.range m.verts.length).filter (inAt m.verts (keepPred S mode)) := by
+      intro k hk e
+      rw [mem_selected]
+      exact ⟨m.verts[k], List.getElem?_eq_getElem hk, by rw [keepPred_congr S mode _ _ e]; exact gi⟩
+    rw [Face.has_iff] at hfi
+    rw [Face.allIn_iff]
+    rcases hfi with h | h | h
+    · subst h
+      exact ⟨sel _ va rfl, sel _ vb eab.symm, sel _ vc (ebc.symm.trans eab.symm)⟩
+    · subst h
+      exact ⟨sel _ va eab, sel _ vb rfl, sel _ vc ebc.symm⟩
+    · subst h
+      exact ⟨sel _ va (eab.trans ebc), sel _ vb ebc, sel _ vc rfl⟩
+
+theorem inVolumeMesh_kept_sub (S : Solid) (mode : Mode) (m : Mesh) (i : Nat)
+    (h : i ∈ (inVolumeMesh S mode m).kept) : i ∈ (inVolumeMesh S mode m).subset := by
+  unfold inVolumeMesh at h ⊢
+  split
+  · rename_i hall; simp only [hall, if_true] at h; exact h
+  · rename_i hall; simp only [hall] at h
+    exact submeshVerts_sub m _ i h
+
+theorem inVolumeMesh_kept_of_noStraddle (S : Solid) (mode : Mode) (m : Mesh) (hv : FacesValid m)
+    (hr : Referenced m) (hs : NoStraddle S m) :
+    (inVolumeMesh S mode m).kept = (List.range m.verts.length).filter (inAt m.verts (keepPred S mode)) := by
+  have hsub := inVolumeMesh_subset S mode m
+  unfold inVolumeMesh at hsub ⊢
+  by_cases hall : (keepMask mode (inVolumePoints S m.verts)).all id = true
+  · rw [if_pos hall] at hsub ⊢; exact hsub
+  · rw [if_neg hall] at hsub ⊢
+    have e : (subsetMesh m (maskedIdx (keepMask mode (inVolumePoints S m.verts)))).subset
+        = maskedIdx (keepMask mode (inVolumePoints S m.verts)) := rfl
+    rw [e] at hsub
+    show submeshVerts m (maskedIdx (keepMask mode (inVolumePoints S m.verts))) = _
+    rw [hsub]
+    exact submeshVerts_eq_of_noStraddle S mode m hv hr hs
+
 end Navis.Volume
